@@ -19,7 +19,7 @@
  * must leave remainder 0 in a plain GF(2) long division (engine/ref).
  * PBKDF2-HMAC-SHA256 (shape X): grid of (passwdlen, saltlen, c, dkLen)
  * against PKCS5_PBKDF2_HMAC, canaries after buf[dkLen].
- * Thorough only: the 2^32-bit counter carry of SHA-1/MD5 (and the high count
+ * Both tiers (not the C03 profiles): the 2^32-bit counter carry of SHA-1/MD5 (and the high count
  * bytes of SHA-256) — the same search in the window around 2^29 bytes, the
  * first 2^29-192 bytes being absorbed in 1 MiB Update calls.
  *
@@ -101,6 +101,7 @@ set_params(void)
 		setrange(K_crc, &nK_crc, 0, 40); K_crc[nK_crc++] = 63; K_crc[nK_crc++] = 64; K_crc[nK_crc++] = 65; L_crc = profile == P_QUICK ? 400 : 300;
 		SETLIST(KL, nKL, KL13);
 		SETLIST(PB_plen, nPB_plen, pl_q); SETLIST(PB_slen, nPB_slen, sl_q); SETLIST(PB_c, nPB_c, c_q); SETLIST(PB_dk, nPB_dk, dk_q);
+		if (profile == P_QUICK) do_long = 1;	/* the 2^32-bit count carry costs a few seconds: worth having on every change */
 		break;
 	case P_THOROUGH:
 		setrange(K_hash, &nK_hash, 0, 300); L_hash = 4000;
